@@ -101,6 +101,16 @@ func (fr *FuncRun) specialStatic(f *Frame, st *State, c *ssa.CallCommon, callee 
 		return unit, true
 	case "sync.NewCond":
 		r := fr.allocRef("cond")
+		// the Cond's locker is the argument
+		if pt, ok := callee.Signature.Results().At(0).Type().(*types.Pointer); ok {
+			if stt, ok := pt.Elem().Underlying().(*types.Struct); ok {
+				for i := 0; i < stt.NumFields(); i++ {
+					if stt.Field(i).Name() == "L" && len(args) == 1 {
+						fr.store(st, FieldOf{Base: ObjAddr{Ref: r, Elem: pt.Elem(), Fresh: true, NonNil: true}, Struct: pt.Elem(), Idx: i}, stt.Field(i).Type(), args[0])
+					}
+				}
+			}
+		}
 		return Val{T: r, S: sInt}, true
 	case "(*sync.Cond).Wait":
 		fr.syncPoint(f, st)
